@@ -1,3 +1,4 @@
+import re
 # gocv verifier: verifies one function against its contract and discharges the obligations.
 import os, sys, time, subprocess, tempfile, hashlib, traceback
 import z3
@@ -20,6 +21,15 @@ class Verifier(Engine):
         c = self.c.funcs.get(name)
         if fn is None: raise Unsupported('function %s not found in /repo (contract-unbound)' % name)
         self.cur = name; self.top_name = fn.name
+        self.fired_events = set()
+        if c is not None and c.flags.get('implements'):
+            own = set(); allowed = set()
+            for m in (c.modifies or []): own |= set(self.mod_entry_keys(m.strip(), fn, c)) if m.strip() not in ('world', 'anything', 'nothing') else {m.strip()}
+            for m in c.flags.get('implements_modifies', []): allowed |= set(self.mod_entry_keys(m.strip(), fn, c)) if m.strip() not in ('world', 'anything', 'nothing') else {m.strip()}
+            own.discard('nothing')
+            if 'world' in allowed or 'anything' in allowed: own = set()
+            extra = sorted(k for k in own - allowed if not k.startswith('ghost:') or True)
+            if extra: raise Unsupported('contract-error: %s modifies %s, which the interface contract %s does not allow' % (name, ', '.join(extra[:6]), c.flags['implements']))
         import vals as _v
         _v._cnt[0] = 0
         st = State()
@@ -74,6 +84,12 @@ class Verifier(Engine):
         o.expect = 'sat'
         self.obls.append(o)
         self.start(fr, st)
+        # every ghost event of the contract must bind to an instruction that some explored path reaches
+        if c is not None:
+            for ev, stmts, txt in c.ghost:
+                if (c.name, ev) not in self.fired_events:
+                    o = Obl('%s/ghost.bound/%s' % (name, re.sub(r'\s+', '_', ev)), 'ghost.bound', [], BoolVal(False), [], fn.pos, 'ghost event %r binds to no reachable instruction' % ev)
+                    self.obls.append(o)
         return fn
 
     def result_env(self, fr, st, vals, fn):
@@ -135,7 +151,7 @@ class Verifier(Engine):
         if ast[0] == 'call' and ast[1][0] == 'id' and ast[1][1] in self.c.pures:
             ps, rt, body, txt = self.c.pures[ast[1][1]]
             if rt == 'bool' and body[0] == 'bin' and body[1] == '&&' and len(ps) == len(ast[2]):
-                if all(a[0] in ('id', 'num', 'field', 'nil') for a in ast[2]):
+                if all(a[0] in ('id', 'num', 'field', 'nil', 'call', 'index', 'bin', 'comp') for a in ast[2]):
                     return self.subst(body, {pn: a for (pn, pt), a in zip(ps, ast[2])})
         return ast
 
@@ -203,6 +219,7 @@ class Verifier(Engine):
         bykey = {}
         for key, idx in st.writes:
             if key in whole: continue
+            if key.startswith('mem:') and 'mem:*' in whole: continue
             if key.startswith('cell:') or key.startswith('chan.'): continue
             bykey.setdefault(key, []).append(idx)
         for key, idxs in bykey.items():
@@ -254,6 +271,19 @@ class Verifier(Engine):
             for res in pool.imap_unordered(_solve_group, work, chunksize=1):
                 for i, r, tm, be, model in res:
                     o = self.obls[i]; o.result, o.time, o.backend, o.model = r, tm, be, model
+        # second chance for undecided obligations: other seed, longer timeout (guards against solver instability)
+        retry = [i for i, o in enumerate(self.obls) if o.expect == 'unsat' and o.result == 'unknown' and 'budget' not in (o.backend or '')]
+        names_failed = {}
+        for i in retry: names_failed.setdefault(self.obls[i].name, []).append(i)
+        if retry and len(names_failed) <= 12 and time.time() < self.deadline:
+            _WORK = (self, timeout_ms * 3, (seed or 0) + 17, race)
+            pick = [idxs[0] for idxs in names_failed.values()]   # one instance per name is enough to know whether retrying helps
+            with ctx.Pool(min(jobs, len(retry))) as pool:
+                for i, r, tm, be, model in pool.imap_unordered(_solve_one, retry if len(retry) <= 48 else pick, chunksize=1):
+                    o = self.obls[i]
+                    if r == 'unsat' or r == 'sat':
+                        o.result, o.backend, o.model = r, be + '+retry', model
+                    o.time += tm
         return time.time() - t0
 
     def solve(self, o, timeout_ms, seed, race=True):
